@@ -29,6 +29,8 @@ def run(a):
     samples = []
     for l in open(os.path.join(out, "app.det")):
         hid, variant, rest = l.rstrip("\n").split(" ", 2)
+        if variant.endswith("crash"):       # a process killed inside Commit: judged under C13
+            continue
         n += 1
         if rest == "same":
             same += 1
